@@ -70,6 +70,8 @@ func (e *Expr) String() string {
 		s = "[" + joinExprs(e.Args, ", ") + "]"
 	case "up":
 		s = "up(" + e.Args[0].String() + ")"
+	case "conv":
+		s = e.Name + "(" + e.Args[0].String() + ")"
 	case "lin":
 		s = e.Name
 	default:
@@ -297,6 +299,9 @@ func (x *Exprer) compute(v ssa.Value) *Expr {
 	case *ssa.BinOp:
 		return canonBin(v.Op, x.E(v.X), x.E(v.Y), v)
 	case *ssa.Convert:
+		if tag := lossyConv(v); tag != "" && os.Getenv("XLINT_NO_CONV") == "" {
+			return mk("conv", tag, v, x.E(v.X)) // a conversion that can change the number is part of the value
+		}
 		return x.E(v.X)
 	case *ssa.ChangeType:
 		return x.E(v.X)
